@@ -8,9 +8,11 @@ about.  Equalities are between parsers (functions), never between runs on concre
 * `fill_digi`: every narrowing conversion the C++ performs (`uint16_t x = …`, pushes into `uint8_t` columns) is emitted by the
   translator and proved harmless here (`*_eq` field lemmas, `foldl_merge_ovf`), then `fillDigiCpp_eq`;
 * fragments: `readROBCpp_eq`, `readROSCpp_eq`, `readSubDetCpp_eq`, `readEventCpp_eq`, `readEventsCpp_eq`;
-* `effectiveSelCpp_eq`, `parse_eq`.
+* `effectiveSelCpp_eq`, `parse_eq`;
+* the conversion of the member vectors into the returned dict: `header_keys`, `column_wiring`, `render_names_agree`.
 -/
 import Pybes3Verif.Gen.RawCpp
+import Pybes3Verif.Util.RawRender
 
 namespace Pybes3Verif.RawCppTie
 open Pybes3Verif.Raw Pybes3Verif.Gen.RawCpp
@@ -278,5 +280,34 @@ theorem effectiveSelCpp_eq (sel : List Nat) : effectiveSelCpp sel = effectiveSel
 theorem parse_eq (sel ws : List Nat) : parseCpp sel ws = parse sel ws := by
   unfold parseCpp parse
   rw [readEventsCpp_eq, effectiveSelCpp_eq]
+
+/-! ### the returned dict (`arrays()` after the event loop) -/
+
+/-- the event-header dict: `evt_header_item_names[i]` names header word `i` of the model's `EventRec.header` -/
+theorem header_keys :
+    headerKeys = ["evt_time", "evt_no", "run_no", "l1_id", "evt_tag1", "evt_tag2", "evt_tag3", "evt_tag4"] := by decide
+
+/-- which member vector is returned under which key: the position is the index into the model's `Row` (`fillDigi`: MDC / TOF
+[id, t, q, overflow], EMC [id, t, q, measure], MUC [id, fec]), so "id" ↦ 0, "tdc" ↦ 1 (t), "adc" ↦ 2 (q), "overflow" / "measure" ↦ 3,
+"fec" ↦ 1; the dtype of every array is the element type of its vector (16 / 8 bits; TRG / EF the raw 32-bit words); every result
+comes with the offsets vector `fill_offsets()` fills for the same sub-detector -/
+theorem column_wiring :
+    columnWiring =
+      [("mdc", [("id", 0, 16), ("adc", 2, 16), ("tdc", 1, 16), ("overflow", 3, 8)]),
+       ("tof", [("id", 0, 16), ("adc", 2, 16), ("tdc", 1, 16), ("overflow", 3, 8)]),
+       ("emc", [("id", 0, 16), ("adc", 2, 16), ("tdc", 1, 16), ("measure", 3, 8)]),
+       ("muc", [("id", 0, 16), ("fec", 1, 16)])] ∧
+    rawWiring = [("ef", 32), ("trg", 32)] ∧
+    offsetsWiring = [("mdc", "m_mdc_offsets"), ("tof", "m_tof_offsets"), ("emc", "m_emc_offsets"), ("muc", "m_muc_offsets"),
+                     ("ef", "m_ef_offsets"), ("trg", "m_trg_offsets")] := by decide
+
+/-- the renderer of the model's output used by the differential tests (`Util/RawRender.lean`, `detOfBit`) prints column `i` of the
+model's rows under the name the C++ returns tuple position `i` under, for every sub-detector with a column dict, and prints as many
+columns as the C++ returns -/
+theorem render_names_agree :
+    columnWiring.all (fun (key, cols) =>
+      match Raw.Render.detOfBit.find? (fun d => d.2.2.1 == key) with
+      | some d => d.2.2.2.length == cols.length && cols.all (fun (c, pos, _) => d.2.2.2[pos]? == some c)
+      | none => false) = true := by decide
 
 end Pybes3Verif.RawCppTie
